@@ -189,38 +189,9 @@ func check(t *rapid.T, name string, base cfg.Big, run func(b *cfg.Big, extra boo
 	}
 }
 
-// nanFreeEquiv compares via formatted text when NaNs are around (NaN != NaN).
+// nanFreeEquiv: equal, with NaN counting as equal to NaN.
 func nanFreeEquiv(a, b cfg.Big) bool {
-	if cfg.Equiv(a, b) {
-		return true
-	}
-	return fmt.Sprintf("%+v", deref(a)) == fmt.Sprintf("%+v", deref(b))
-}
-
-// deref renders pointers by value so that formatted comparison is meaningful
-func deref(b cfg.Big) string {
-	s := fmt.Sprintf("%v|%v|%v|%v|", b.PS == nil, b.PI == nil, b.PF == nil, b.PB == nil)
-	if b.PS != nil {
-		s += *b.PS
-	}
-	if b.PI != nil {
-		s += fmt.Sprint(*b.PI)
-	}
-	if b.PF != nil {
-		s += fmt.Sprint(*b.PF)
-	}
-	if b.PB != nil {
-		s += fmt.Sprint(*b.PB)
-	}
-	if b.PFlat != nil {
-		s += fmt.Sprintf("%+v", *b.PFlat)
-	}
-	if b.EP != nil {
-		s += fmt.Sprint(*b.EP)
-	}
-	c := b
-	c.PS, c.PI, c.PF, c.PB, c.PFlat, c.EP = nil, nil, nil, nil, nil, nil
-	return s + fmt.Sprintf("%+v", c)
+	return cfg.EquivNaN(a, b)
 }
 
 func interleave(t *rapid.T, ps, extra data.Points) data.Points {
@@ -230,6 +201,27 @@ func interleave(t *rapid.T, ps, extra data.Points) data.Points {
 		out = append(out[:i], append(data.Points{e}, out[i:]...)...)
 	}
 	return out
+}
+
+// withPrivate declares the same point types as cfg.Big for a few fields, some
+// of which cannot be set through reflection.
+type privFlat struct {
+	A int `point:"a"`
+	b string
+	c float64
+	D bool
+}
+
+type withPrivate struct {
+	ID     string             `node:"id"`
+	Parent string             `node:"parent"`
+	VFlat  privFlat           `point:"vflat"`
+	PFlat  *privFlat          `point:"pflat"`
+	hidden int                `point:"i"`
+	ss     []string           `point:"ss"`
+	mf     map[string]float64 `point:"mf"`
+	role   string             `edgepoint:"role"`
+	S      string             `point:"s"`
 }
 
 func TestPropNoPanic(t *testing.T) {
@@ -269,6 +261,26 @@ func TestPropNoPanic(t *testing.T) {
 		check(t, "MergeEdgePoints", base, func(b *cfg.Big, extra bool) error {
 			return data.MergeEdgePoints("id1", b.Parent, pick(extra, eps, epsX), b)
 		}, eps)
+		// a configuration type with fields the decoder cannot set (unexported, at
+		// the top level and inside nested structs): an error is fine, a panic is not
+		for _, run := range []struct {
+			name string
+			f    func(w *withPrivate) error
+		}{
+			{"Decode(unexported fields)", func(w *withPrivate) error {
+				return data.Decode(data.NodeEdgeChildren{NodeEdge: data.NodeEdge{ID: "id1", Parent: "p", Type: "withPrivate", Points: nps, EdgePoints: eps}}, w)
+			}},
+			{"MergePoints(unexported fields)", func(w *withPrivate) error { return data.MergePoints("id1", nps, w) }},
+			{"MergeEdgePoints(unexported fields)", func(w *withPrivate) error { return data.MergeEdgePoints("id1", "p", eps, w) }},
+		} {
+			w := withPrivate{ID: "id1", Parent: "p"}
+			if rapid.Bool().Draw(t, "privPtrSet") {
+				w.PFlat = &privFlat{A: 1}
+			}
+			if o := guard(func() error { return run.f(&w) }); o.panicked != nil {
+				t.Fatalf("%s panicked: %v\npoints: %s %s\n%s", run.name, o.panicked, describe(nps), describe(eps), o.stack)
+			}
+		}
 		if len(base.Kids) > 0 {
 			kps := genPoints(t, []string{"description", "vals"}, "nKidMerge")
 			check(t, "MergePoints(child)", base, func(b *cfg.Big, extra bool) error {
@@ -276,7 +288,7 @@ func TestPropNoPanic(t *testing.T) {
 			}, kps)
 		}
 		nt, cls := classify(append(append(data.Points{}, nps...), eps...))
-		stats.Case(nt, stats.Digest(describe(nps), describe(eps), fmt.Sprintf("%+v", deref(base))), cls...)
+		stats.Case(nt, stats.Digest(describe(nps), describe(eps), cfg.Render(base)), cls...)
 		if nt && stats.WantSample() {
 			stats.Sample(map[string]any{"node_points": describe(nps), "edge_points": describe(eps), "prior_zero": base.S == "" && base.SI == nil})
 		}
